@@ -213,6 +213,30 @@ def lr1_not_lalr(rng, idx):
             "prods": [{"lhs": l, "rhs": list(r_)} for l, r_ in prods]}
 
 
+def ascent_slots(rng, idx):
+    """grammars whose states hold items with prefixes of different lengths (a decision deferred by a token:
+    `X = p t | p B | p G u`, `B = t v`, `G = (empty)`): the recursive-ascent generator then passes some of
+    the stack as optional slots"""
+    a, b, c, d, e = TS[:5]
+    pre = [a] if rng.random() < 0.6 else [a, b]
+    t, u, v = rng.sample([c, d, e, TS[5]], 3)
+    prods = [("S", pre + [t]), ("S", pre + ["A"]), ("S", pre + ["B", u]), ("A", [t, v]), ("B", [])]
+    nts = ["S", "A", "B"]
+    r = rng.random()
+    if r < 0.3:       # the empty nonterminal also in a state with a fixed top slot
+        prods.append(("S", [u, "B", v]))
+    elif r < 0.5:     # one more level of deferral
+        prods += [("S", pre + ["C", v]), ("C", [t, u])]
+        nts.append("C")
+    elif r < 0.65:    # the empty nonterminal at the end of the input
+        prods.append(("S", pre + [t, "B"]))
+    if rng.random() < 0.3:
+        prods.append(("S", ["S", TS[5] if TS[5] not in (t, u, v) else e, "S"][:1] + [u, u]))
+    ts = [x for x in TS if any(x in r_ for _, r_ in prods)]
+    return {"id": "z%05d" % idx, "ts": ts, "nts": nts, "starts": ["S"], "locshape": True,
+            "prods": [{"lhs": l, "rhs": list(r_)} for l, r_ in prods]}
+
+
 def recovery_shapes(rng, idx):
     """grammars in which error recovery has to *reduce on the error lookahead* before it can shift `!`
     (a nullable or complete nonterminal directly in front of `!`), in list and bracket contexts"""
